@@ -121,6 +121,17 @@ CLAIMS = {
               "recomputation from traces and nodes clipped to the 1.5 w circle (exact rational clipping), identical tables across backends and via precursor_grid."),
         note=TB + " partial: floating-point accumulation of the cell edges (the last edge may miss the bound by ulps, F11) is only bounded by a tolerance in S18; joblib returning results in submission order is the GatherLaw parameter; per-cell topology mode (resolve_branches_nodes=True) is not exercised in quick (F17).",
         ref="DESIGN.md section 6 C18", technique="Lean 4 theorems over regenerated grid arithmetic (cover/disjoint/schedule) + differential correspondence with exact clipping"),
+    "C19": dict(
+        text=("Proof (Lean 4): file-effect model of tracevalidate -- after the command every path other than the output path holds what it held before (inputs byte-identical "
+              "unless named as the output), the output holds a function of the two input contents only (an existing file is replaced, its old content irrelevant); the text "
+              "written to the error column (Python str(tuple)) determines the tuple: parse(repr l) = l and repr injective for ALL tuples of quote-free strings (induction); "
+              "regenerated option plumbing: CLI defaults, options handed to Validation/Network unchanged, --only-area-validation = exactly the area validator, the only "
+              "deletion in the command is output_path guarded by exists(). Tie: translator (shape-checked extraction from cli.py) + stream S19: CliRunner on GeoJSON / "
+              "GPKG / Shapefile inputs, with/without CRS, attribute columns x options x output locations (fresh, existing, output stem a prefix of the input names, in "
+              "place); written rows / attributes / CRS / geometry / error text vs the library on the same files; sha256 of every other file before/after; network "
+              "command's branch/node GeoPackages vs Network(...)."),
+        note=TB + " partial: GDAL drivers (Shapefile field-name truncation to VALIDATION, GeoJSON coordinate precision) are the IoLaw parameter, validated by S19 only; `fractopo network` exits 1 in this environment after writing the files (powerlaw 2.0 API) -- only the written files are compared.",
+        ref="DESIGN.md section 6 C19", technique="Lean 4 theorems over a file-effect model and the tuple text codec + regenerated option plumbing + CLI differential in temp dirs"),
     "C20": dict(
         text=("Proof (Lean 4): grouping is a partition for every list and every interleaving (flat(group xs) is a permutation of xs, one group per name); "
               "the regenerated Param->Aggregator table is additive exactly for Area, the four counts and Circle Count and C20_aggregate gives sum / area-weighted mean / "
